@@ -64,7 +64,8 @@ RULE = (
     "scratch target and loaded through ModuleLoader in 8 loader forms (str / Path / list / list with an empty first "
     "directory / two targets split by filter_func / ChoiceLoader before or after a source loader with a partial "
     "compile); sync and enable_async; environment options drawn from autoescape (bool / by-name callable), sandboxed, "
-    "immutable sandbox, optimized=False, trim/lstrip blocks, finalize, cache_size=0, Debug/Chainable/Strict undefined, "
+    "immutable sandbox, optimized=False, trim/lstrip blocks, finalize (None->'' / type-sensitive / pass_environment, with "
+    "snippets printing none, float, int, bool and container constants), cache_size=0, Debug/Chainable/Strict undefined, "
     "i18n extension; in a fifth of the cases the same loader instance also serves a second environment with another "
     "undefined type and other global values; in a fifth the target already holds an earlier build (other options and/or "
     "other sources, file-backed sources with old timestamps). Every template x 2 data assignments rendered on both sides. Non-trivial = during a render of a "
@@ -83,7 +84,7 @@ ASSUMPTIONS = [
 
 FORMS = ("path", "pathlike", "list1", "list_empty_first", "split", "choice_mod_first", "choice_src_first")
 FLAGS = ("autoescape", "autoescape_fn", "sandbox", "immutable", "unoptimized", "ws", "finalize", "nocache",
-         "debug_undefined", "chainable_undefined", "strict_undefined", "i18n", "no_auto_reload")
+         "debug_undefined", "chainable_undefined", "strict_undefined", "i18n", "no_auto_reload", "finalize_typed", "finalize_env")
 ZIPS = (None, "stored", "deflated")
 
 sys.dont_write_bytecode = True  # a .pyc next to a rebuilt module would be validated by mtime + size only
@@ -163,6 +164,29 @@ def _finalize(v):
     return "" if v is None else v
 
 
+def _finalize_typed(v):
+    """Type-sensitive finalize: None -> '', float -> two decimals, int -> bracketed; everything else unchanged."""
+    if v is None:
+        return ""
+    if isinstance(v, bool):
+        return v
+    if isinstance(v, float):
+        return "%.2f" % v
+    if isinstance(v, int):
+        return "[%d]" % v
+    return v
+
+
+def _finalize_env():
+    from jinja2 import pass_environment
+
+    @pass_environment
+    def finalize(environment, v):
+        return _finalize_typed(v)
+
+    return finalize
+
+
 def _autoescape_by_name(name):
     return name is not None and (name.endswith(".html") or name.endswith("0"))
 
@@ -188,7 +212,11 @@ def make_env(loader, cfg, globs, state=None):
         opts["optimized"] = False
     if "ws" in flags:
         opts.update(trim_blocks=True, lstrip_blocks=True, keep_trailing_newline=True)
-    if "finalize" in flags:
+    if "finalize_typed" in flags:
+        opts["finalize"] = _finalize_typed
+    elif "finalize_env" in flags:
+        opts["finalize"] = _finalize_env()
+    elif "finalize" in flags:
         opts["finalize"] = _finalize
     if "nocache" in flags:
         opts["cache_size"] = 0
@@ -566,11 +594,14 @@ SNIPPETS = [
     (None, "{% if flag %}T{% elif n %}N{% else %}E{% endif %}{{ flag and n or html }}{{ not flag }}"),
     (None, "{{ dict(a=1, b=n)|items|list }}{{ range(3)|list }}{{ words|unique|list }}{{ items|reverse|list }}{{ items|max if items }}"),
     (None, "{{ html|replace('<', '[')|truncate(5)|center(9)|indent(2) }}{{ n|string|int|float|round(1)|abs }}{{ n|filesizeformat }}"),
+    (None, "{{ none }}|{{ 2.5 }}|{{ 1 + 1 }}|{{ [1, none] }}|{{ true }}|{{ 7 }}|{{ -0.5 }}|{{ (none, 1.0) }}|{{ {'k': none} }}|{{ 'txt' }}|{{ 3 // 2 }}"),
+    (None, "a{{ none }}b{{ 10 / 4 }}c{{ n }}d{{ zz }}e{{ none if flag else 1.5 }}f{{ 2 ** 3 }}g{{ items|length }}h{{ 1.0 * n }}i{{ none|default(none) }}"),
     ("i18n", "{% trans %}Hello {{ n }}{% endtrans %}{% trans c=items|length %}one {{ c }}{% pluralize %}many {{ c }}{% endtrans %}{{ _('x<y') }}"),
     ("i18n", "{% trans user=user.name %}Hi {{ user }} 100%{% endtrans %}{{ gettext('%(a)s!', a=html) }}{{ ngettext('%(num)d a', '%(num)d b', n) }}"),
 ]
 
 PLAIN_VARS = ("x", "y", "i", "v", "w", "q", "a", "p0", "c0", "g")
+CONST_SNIPPETS = [i for i, (_, src) in enumerate(SNIPPETS) if src.startswith(("{{ none }}|", "a{{ none }}b"))]
 NAME_PATTERNS = ("dir/%s.html", "%s.j2", "ü%sß", "{%s}", "%s %s", "a/b/c/%s", "%s.html", "T%s")
 
 
@@ -620,6 +651,13 @@ def _strategy(tier_sizes):
             case["prog"] = {"prog": prog, "data": draw(G.datas(2))}
         pool = [i for i, (need, _) in enumerate(SNIPPETS) if need is None or need in flags]
         idx = draw(st.lists(st.sampled_from(pool), min_size=1 if kind == "raw_only" else 0, max_size=5, unique=True))
+        if any(f.startswith("finalize") for f in flags):
+            # a finalize function matters for constants of several types, most of all under autoescape
+            if "autoescape" not in flags and "autoescape_fn" not in flags and draw(st.integers(0, 2)) > 0:
+                flags.append("autoescape")
+            for i in CONST_SNIPPETS:
+                if i not in idx and (draw(st.integers(0, 3)) > 0):
+                    idx.append(i)
         if idx:
             raw = {"feat": "".join(SNIPPETS[i][1] for i in idx)}
             if case["ir"] is None or draw(st.booleans()):
